@@ -107,6 +107,16 @@ func setOutgoingHeader(header http.Header, md metadata.MD) {
 	}
 }
 
+// setOutgoingTrailer sets trailer metadata. The keys are not known when the
+// headers are written so they can't be announced: use the http.TrailerPrefix.
+func setOutgoingTrailer(header http.Header, md metadata.MD) {
+	tr := make(http.Header, len(md))
+	setOutgoingHeader(tr, md)
+	for k, vs := range tr {
+		header[http.TrailerPrefix+k] = vs
+	}
+}
+
 func encodeGrpcMessage(msg string) string {
 	var (
 		sb  strings.Builder
@@ -593,7 +603,7 @@ func (m *Mux) serveGRPC(w http.ResponseWriter, r *http.Request) {
 		}
 		h.Set("Grpc-Status-Details-Bin", encodeBinHeader(stBytes))
 	}
-	setOutgoingHeader(h, stream.trailer)
+	setOutgoingTrailer(h, stream.trailer)
 
 	if sh := m.opts.statsHandler; sh != nil {
 		endTime := time.Now()
